@@ -193,8 +193,8 @@ def _check_evidence(ev):
         for k in ("states", "transitions", "traces_validated_against_impl", "samples"):
             if k not in cov:
                 raise HarnessError("evidence coverage lacks %s" % k)
-        if cov["states"] < 1 or cov["transitions"] < 1 or not cov["samples"]:
-            raise HarnessError("vacuous model-checking evidence")
+        if (cov["states"] < 1 or cov["transitions"] < 1 or not cov["samples"]) and not ev.get("violations"):
+            raise HarnessError("vacuous model-checking evidence")   # (a run in which everything failed reports its violations)
     for k in ("evaluations", "distinct_nontrivial"):
         if k in cov and (not isinstance(cov[k], int) or cov[k] < 0):
             raise HarnessError("bad %s" % k)
